@@ -34,6 +34,9 @@
     `float(k)` (k an int)                                      `o.ofInt k`
     `x * a` (x a number, a a number or a Stream)               `Arg.map (fun v => o.mul x v) a`
     `len(self)`, `self.table`, `self.cycles * 2 * pi`          `table.length`, `table`, the parameter `den`
+    `int(floor(E))`                                            `floor E`  (a parameter: `NumOps` has no floor)
+    `j % k` (ints; ZeroDivisionError)                          `intModG j k`
+    `return E` of a function that returns one value            `bindE (raising primitive) fun t => … .ok PURE`
 
   The state of a loop is the tuple of the variables its body assigns, in order of first assignment.
   Mathlib-free; executable.
@@ -103,6 +106,10 @@ def indexG {α : Type} (tbl : List α) (j : Int) : Except String α :=
   match pyIndex tbl j with
   | some x => .ok x
   | none => .error "IndexError"
+
+/-- `j % k` of two ints: floored; `k = 0` raises -/
+def intModG (j k : Int) : Except String Int :=
+  if k = 0 then .error "ZeroDivisionError" else .ok (j.fmod k)
 
 /-- `Stream(E for v in r)`: lazily, the first failing sample ends the stream -/
 def mapRunG {α β : Type} (f : α → Except String β) (r : Run α) : Run β := mapRun f r.1 r.2
@@ -192,6 +199,25 @@ def lookupAtNow (tbl : List α) (idx : α) : Except String α :=
         match pyIndex tbl (c - (tbl.length : Int)) with
         | none => .error "IndexError"
         | some y => .ok (o.add (o.mul x (o.sub o.one (o.sub idx (o.ofInt i)))) (o.mul y (o.sub idx (o.ofInt i))))
+
+/-- `TableLookup.__getitem__(idx)` as it is written today (D15 repaired: `left = int(floor(idx))`, both neighbours
+    `% len`), in Python's order of evaluation; `floor` = `int(math.floor(·))` -/
+def getItemNow (floor : α → Except String Int) (tbl : List α) (idx : α) : Except String α :=
+  let L : Int := tbl.length
+  match floor idx with
+  | .error e => .error e
+  | .ok left =>
+    if L = 0 then .error "ZeroDivisionError"
+    else match pyIndex tbl (left.fmod L) with
+      | none => .error "IndexError"
+      | some x =>
+        match o.ceil idx with
+        | .error e => .error e
+        | .ok c =>
+          match pyIndex tbl (c.fmod L) with
+          | none => .error "IndexError"
+          | some y =>
+            .ok (o.add (o.mul x (o.sub o.one (o.sub idx (o.ofInt left)))) (o.mul y (o.sub idx (o.ofInt left))))
 
 /-- `TableLookup(tbl, cycles)(freq, phase)` as it is written today (`den` = the value of `cycles * 2 * pi`): the
     positions come from today's `modulo_counter` -/
